@@ -116,10 +116,10 @@ module.exports = {
   assumptions: ['ident is not judged for string/numeric/computed-keyed properties, class fields and parenthesised initialisers (statement silent)', 'lone CR / U+2028 / U+2029 line terminators are not generated', 'import attributes are ignored'],
   plan (ctx) {
     const shards = []
-    const n = ctx.tier === 'thorough' ? 12000 : 700
+    const n = ctx.tier === 'thorough' ? 30000 : 3000
     for (let k = 0; k < n / 100; k++) shards.push({ kind: 'gen', count: 100, stream: k })
     const files = corpus.list()
-    const pick = ctx.tier === 'thorough' ? files : new Rng(ctx.seed, 'c14c').sample(files, 160)
+    const pick = ctx.tier === 'thorough' ? files : new Rng(ctx.seed, 'c14c').sample(files, 320)
     for (const c of chunk(pick, 40)) shards.push({ kind: 'corpus', items: c.map(f => ({ name: f.name, kind: f.kind })) })
     return shards
   },
